@@ -33,7 +33,11 @@ fn one_round(backend: &str, i: u64, rng: &mut Rng, out: &mut Outcome, dir: &std:
             let s2 = MdkMemoryStorage::default();
             let c = run_snapshot_cut(&s2, &u, versions, snapshotters, seed);
             let s3 = MdkMemoryStorage::default();
-            let k = run_claims(&s3, &u, claim_threads, claim_rounds, seed);
+            let mut k = run_claims(&s3, &u, claim_threads, claim_rounds, seed);
+            let s4 = MdkMemoryStorage::default();
+            let rr = run_rollback_readers(&s4, &u, rng.range(100, 400), rng.range(2, 5), seed);
+            k.violations.extend(rr.violations);
+            k.reads += rr.reads;
             (r, c, k)
         }
         _ => {
@@ -47,7 +51,16 @@ fn one_round(backend: &str, i: u64, rng: &mut Rng, out: &mut Outcome, dir: &std:
             let c = run_snapshot_cut(&s2, &u, versions, snapshotters, seed);
             let p3 = sub.join(format!("c19-{i}-claims.db"));
             let s3 = MdkSqliteStorage::new_unencrypted(&p3).expect("open");
-            let k = run_claims(&s3, &u, claim_threads, claim_rounds.min(60), seed);
+            let mut k = run_claims(&s3, &u, claim_threads, claim_rounds.min(60), seed);
+            let p4 = sub.join(format!("c19-{i}-rr.db"));
+            let s4 = MdkSqliteStorage::new_unencrypted(&p4).expect("open");
+            let rr = run_rollback_readers(&s4, &u, rng.range(20, 60), rng.range(2, 4), seed);
+            k.violations.extend(rr.violations);
+            k.reads += rr.reads;
+            drop(s4);
+            for suf in ["", "-journal", "-wal", "-shm"] {
+                let _ = std::fs::remove_file(format!("{}{}", p4.display(), suf));
+            }
             drop(s);
             drop(s2);
             drop(s3);
@@ -60,6 +73,7 @@ fn one_round(backend: &str, i: u64, rng: &mut Rng, out: &mut Outcome, dir: &std:
         }
     };
     out.add("claim_rounds_concurrent_save_group", claims.histories_ops);
+    out.add("reads_during_concurrent_snapshot_rollback", claims.reads);
     out.evaluations += 1;
     out.count(&format!("histories_{backend}"));
     out.add("history_operations", rep.histories_ops);
